@@ -175,6 +175,30 @@ func checkProperty(e *engine.Engine, verif, id, tier string, seed int, loadS flo
 		}
 		j.rep = e.VerifyFunction(fn)
 	}
+	// lemmas used by contracts must themselves be proved in this run
+	have := map[string]bool{}
+	for _, j := range jobs {
+		have[j.key] = true
+	}
+	for i := 0; i < len(jobs); i++ {
+		if jobs[i].rep == nil {
+			continue
+		}
+		for _, ln := range jobs[i].rep.UsedLemmas {
+			k := "lemma:" + ln
+			if have[k] {
+				continue
+			}
+			have[k] = true
+			nj := &job{key: k, lemma: true}
+			if ct := e.Contracts[k]; ct != nil {
+				nj.rep = e.VerifyLemma(ct)
+			} else {
+				missing = append(missing, k)
+			}
+			jobs = append(jobs, nj)
+		}
+	}
 	for _, j := range jobs {
 		if j.rep == nil {
 			continue
